@@ -1,0 +1,37 @@
+//go:build verif
+
+// Contracts for the k-way merge, read by /verif/kvc (contract-based deductive verification).
+// Sources are ordered newest first; the merge yields the minimum current key over the sources and, among
+// sources holding it, the value of the lowest index (newest).  src = index of the source that supplied the
+// current entry (ghost).  Comment-only; excluded from every build without the `verif` tag.
+package composite
+
+//@ ghost field (*HierarchicalIterator) src int
+//@ predicate SrcOK(h *HierarchicalIterator) = (forall s int :: 0 <= s && s < len(h.iterators) ==> h.iterators[s] != nil && iterator.IterSorted(h.iterators[s])) && (forall s int, t int :: 0 <= s && s < t && t < len(h.iterators) ==> dyn(h.iterators[s]) != dyn(h.iterators[t]))
+//@ predicate AtLowerBound(it iterator.Iterator, t bstr) = 0 <= it.pos && it.pos <= it.n && (forall i int :: 0 <= i && i < it.pos ==> blt(it.keys[i], t)) && (it.pos < it.n ==> !blt(it.keys[it.pos], t))
+//@ predicate CurKey(it iterator.Iterator) = it.keys[it.pos]
+// the merge's current entry is the minimum over the valid sources, taken from the newest source holding it
+//@ predicate MergedAt(h *HierarchicalIterator) = 0 <= h.src && h.src < len(h.iterators) && iterator.IterValid(h.iterators[h.src]) && bstr(h.key) == h.iterators[h.src].keys[h.iterators[h.src].pos] && bstr(h.value) == h.iterators[h.src].vals[h.iterators[h.src].pos] && (h.value == nil) == h.iterators[h.src].valnil[h.iterators[h.src].pos] && (forall s int :: 0 <= s && s < len(h.iterators) && iterator.IterValid(h.iterators[s]) ==> (s < h.src ==> blt(bstr(h.key), h.iterators[s].keys[h.iterators[s].pos])) && (s >= h.src ==> !blt(h.iterators[s].keys[h.iterators[s].pos], bstr(h.key))))
+
+// Seek(t): EVERY source is positioned on its first key >= t (so that continued iteration sees all of them);
+// the merge is on the smallest such key, newest source first; invalid iff no source has a key >= t.
+//@ func (*HierarchicalIterator).Seek
+//@   requires SrcOK(h) && lockstate(h.mu) == 0
+//@   ensures[C05] forall s int :: 0 <= s && s < len(h.iterators) ==> AtLowerBound(h.iterators[s], bstr(target))
+//@   ensures[C05] result == h.valid
+//@   ensures[C05] h.valid ==> MergedAt(h)
+//@   ensures[C05] !h.valid ==> (forall s int :: 0 <= s && s < len(h.iterators) ==> !iterator.IterValid(h.iterators[s]))
+//@   ghost exit: h.src = bestIterIdx
+//@ loop (*HierarchicalIterator).Seek#1
+//@   invariant[C05] SrcOK(h) && (forall s int :: 0 <= s && s < idx ==> AtLowerBound(h.iterators[s], bstr(target)))
+//@ loop (*HierarchicalIterator).Seek#2
+//@   invariant[C05] SrcOK(h) && !h.valid && 0 - 1 <= bestIterIdx && bestIterIdx < idx
+//@   invariant[C05] forall s int :: 0 <= s && s < len(h.iterators) && iterator.IterValid(h.iterators[s]) ==> !blt(h.iterators[s].keys[h.iterators[s].pos], bstr(target))
+//@   invariant[C05] bestIterIdx == 0 - 1 ==> (forall s int :: 0 <= s && s < idx ==> !iterator.IterValid(h.iterators[s]))
+//@   invariant[C05] bestIterIdx >= 0 ==> iterator.IterValid(h.iterators[bestIterIdx]) && bstr(bestKey) == h.iterators[bestIterIdx].keys[h.iterators[bestIterIdx].pos] && bstr(bestValue) == h.iterators[bestIterIdx].vals[h.iterators[bestIterIdx].pos] && (bestValue == nil) == h.iterators[bestIterIdx].valnil[h.iterators[bestIterIdx].pos]
+//@   invariant[C05] bestIterIdx >= 0 ==> (forall s int :: 0 <= s && s < idx && iterator.IterValid(h.iterators[s]) ==> (s < bestIterIdx ==> blt(bstr(bestKey), h.iterators[s].keys[h.iterators[s].pos])) && (s >= bestIterIdx ==> !blt(h.iterators[s].keys[h.iterators[s].pos], bstr(bestKey))))
+//@ loop (*HierarchicalIterator).Seek#3
+//@   invariant[C05] SrcOK(h) && !h.valid && 0 <= i && i <= bestIterIdx && bestIterIdx < len(h.iterators)
+//@   invariant[C05] forall s int :: 0 <= s && s < len(h.iterators) && iterator.IterValid(h.iterators[s]) ==> !blt(h.iterators[s].keys[h.iterators[s].pos], bstr(target))
+//@   invariant[C05] iterator.IterValid(h.iterators[bestIterIdx]) && bstr(bestKey) == h.iterators[bestIterIdx].keys[h.iterators[bestIterIdx].pos] && bstr(bestValue) == h.iterators[bestIterIdx].vals[h.iterators[bestIterIdx].pos] && (bestValue == nil) == h.iterators[bestIterIdx].valnil[h.iterators[bestIterIdx].pos]
+//@   invariant[C05] forall s int :: 0 <= s && s < len(h.iterators) && iterator.IterValid(h.iterators[s]) ==> (s < bestIterIdx ==> blt(bstr(bestKey), h.iterators[s].keys[h.iterators[s].pos])) && (s >= bestIterIdx ==> !blt(h.iterators[s].keys[h.iterators[s].pos], bstr(bestKey)))
